@@ -8,7 +8,7 @@ LEVEL = "other"
 
 
 def run(rep, tier, seed):
-    proved_tier(rep, "C10", seed, expected_min_obligations=20)
+    proved_tier(rep, "C10", seed, expected_min_obligations=10)
     bounded_C10.run(rep, tier, seed)
 
 
